@@ -226,7 +226,7 @@ def apply_mutations(src, muts):
     return src
 
 
-def assemble(src, w, version, encoding='latin-1'):
+def assemble(src, w, version, encoding='latin-1', stats=False):
     import flipjump
     from flipjump.fjm.fjm_consts import FJMVersion
     from flipjump.utils.exceptions import FlipJumpException
@@ -240,7 +240,7 @@ def assemble(src, w, version, encoding='latin-1'):
     try:
         with contextlib.redirect_stdout(io.StringIO()), engines.hang_guard(8):
             flipjump.assemble([f], out, memory_width=w, fjm_version=FJMVersion(version), print_time=False,
-                              warning_as_errors=False, use_stl=False)
+                              warning_as_errors=False, use_stl=False, show_statistics=stats)
     except FlipJumpException as e:
         return 'fj', e, out
     except engines.EngineTimeout:
@@ -309,7 +309,11 @@ def run_case(case):
             cl.append('stage=' + case['fault'].split(':')[1])
     else:
         src = apply_mutations(src, case['mutations'])
-    status, exc, out = assemble(src, w, case['version'], 'utf-8' if str(case.get('fault', '')).endswith(':utf8') else 'latin-1')
+    # the macro-usage statistics option (text fallback without plotly) on a third of the cases: it runs inside the pipeline
+    stats = (len(src) + w + case['version']) % 3 == 0
+    status, exc, out = assemble(src, w, case['version'], 'utf-8' if str(case.get('fault', '')).endswith(':utf8') else 'latin-1', stats)
+    if stats:
+        cl.append('show_statistics')
     if status == 'timeout':
         return Discard('inconclusive: assembler wall guard')
     if status == 'raw':
